@@ -19,7 +19,9 @@ impl RemoteEntityAccessControl for AccessControlBuiltin {
     domain_id: u16,
     publication_data: &PublicationBuiltinTopicDataSecure,
   ) -> SecurityResult<bool> {
-    let partitions = &[]; // Partitions currently unsupported. TODO: get from publication_data
+    // Partitions currently unsupported: everything is in the default (empty string)
+    // partition. TODO: get from publication_data
+    let partitions = &[""];
     let data_tags = &[]; // Data tagging currently unsupported. TODO: get from publication_data
 
     let PublicationBuiltinTopicDataSecure {
@@ -53,7 +55,9 @@ impl RemoteEntityAccessControl for AccessControlBuiltin {
     domain_id: u16,
     subscription_data: &SubscriptionBuiltinTopicDataSecure,
   ) -> SecurityResult<(bool, bool)> {
-    let partitions = &[]; // Partitions currently unsupported. TODO: get from publication_data
+    // Partitions currently unsupported: everything is in the default (empty string)
+    // partition. TODO: get from publication_data
+    let partitions = &[""];
     let data_tags = &[]; // Data tagging currently unsupported. TODO: get from publication_data
 
     let SubscriptionBuiltinTopicDataSecure {
@@ -119,7 +123,9 @@ impl RemoteEntityAccessControl for AccessControlBuiltin {
     domain_id: u16,
     topic_data: &TopicBuiltinTopicData,
   ) -> SecurityResult<bool> {
-    let partitions = &[]; // Partitions currently unsupported. TODO: get from publication_data
+    // Partitions currently unsupported: everything is in the default (empty string)
+    // partition. TODO: get from publication_data
+    let partitions = &[""];
     let data_tags = &[]; // Data tagging currently unsupported. TODO: get from publication_data
 
     let TopicBuiltinTopicData { name, .. } = topic_data;
